@@ -138,10 +138,31 @@ def gen_pop(rng, tier):
     return {'kind': 'pop', 'seed': rng.below(1 << 30), 'cfg': cfg, 'ops': ops, 'stream': stream, 'dim': dim}
 
 
+def gen_long(rng, tier):
+    """exploration-level stream: thousands of single-individual store_batch calls without smoothing (finiteness monitors only)"""
+    dim = rng.range(1, 2)
+    spread = rng.choice([0, 2, 40])
+    k = rng.range(2, 4)
+    pts = [[rng.range(-80, 80) for _ in range(dim)] for _ in range(k)]
+    cents = [[rng.range(-50, 50) for _ in range(dim)] for _ in range(rng.range(1, 3))]
+    data = [[i, rng.range(0, 9), i] + [v + rng.range(-spread, spread) for v in rng.choice(cents)] for i in range(rng.choice([8, 16, 24]))]
+    ops = []
+    nid = 100
+    for g in range(2500 if tier == 'quick' else 6000):
+        c = pts[g % k] if rng.chance(3, 4) else rng.choice(pts)
+        ops.append({'op': 'store', 'time': g, 'xs': [[nid, rng.range(0, 9), nid] + [v + rng.range(-spread, spread) for v in c]]})
+        nid += 1
+    cfg = {'node_size': 2, 'sf': rng.choice([8, 12, 14, 15]), 'df': rng.choice([8, 14, 15]), 'lr': rng.choice([2, 5, 16]),
+           'rebalance': 10, 'initial_error': True}
+    return {'kind': 'net', 'brief': True, 'seed': rng.below(1 << 30), 'cfg': cfg, 'data': data, 'ops': ops, 'stream': 'duplicated', 'dim': dim}
+
+
 def generate(rng, tier, n):
     cases = []
     for _ in range(n):
         cases.append(gen_pop(rng, tier) if rng.chance(3, 20) else gen_net(rng, tier))
+    for _ in range(3 if tier == 'quick' else 40):
+        cases.append(gen_long(rng.fork('long%d' % len(cases)), tier))
     return cases
 
 
@@ -179,7 +200,7 @@ def model_term(c, impl):
             else:
                 ops.append('RGen %s %s' % (z(o['t']), z(cfg['er'])))
         return 'run_phase (mkR %s %s %s) [%s]' % (nat(cfg['initial']), nat(cfg['elite']), z(cfg['er']), '; '.join(ops))
-    if 'panic' in impl:
+    if 'panic' in impl or c.get('brief'):
         return None
     cfg = 'mkCfg %s' % nat(c['cfg']['node_size'])
     data = '[' + '; '.join(it(x) for x in c['data']) + ']'
@@ -231,6 +252,8 @@ def real_ops(c):
 
 
 def compare(c, impl, model):
+    if c.get('brief'):
+        return None
     if c['kind'] == 'pop':
         if 'panic' in impl:
             return 'implementation panicked outside an operation: %s' % impl['panic']
@@ -278,7 +301,10 @@ def compare(c, impl, model):
 
 
 # ------------------------------------------------------------------ oracle (the property on the implementation's own output)
-def wf_dump(t, name, dim, node_size, v):
+FINDING_ERR = 'node-error-overflows-without-smoothing'
+
+
+def wf_dump(t, name, dim, node_size, v, monitors=True):
     nodes = t['nodes']
     keys = [(n[0], n[1]) for n in nodes]
     if len(set(keys)) != len(keys):
@@ -296,7 +322,7 @@ def wf_dump(t, name, dim, node_size, v):
     if t['size'] < 4:
         v.append({'class': 'fewer-than-four-nodes-after-' + name, 'what': 'the map has fewer than four nodes'})
     for key, cl in (('nonfinite_w', 'nonfinite-weight'), ('nonfinite_e', 'nonfinite-error'), ('nonfinite_m', 'nonfinite-measure')):
-        if t[key]:
+        if t[key] and monitors:
             v.append({'class': cl + '-after-' + name, 'what': key + ' (exploration-level monitor on the implementation)'})
 
 
@@ -340,6 +366,21 @@ def oracle(c, impl):
         return v
     ops = [None] + real_ops(c)
     node_size = c['cfg']['node_size']
+    if c.get('brief'):
+        # long stream: first and last map only, monitors accumulated over all calls
+        bb = impl.get('brief_bad') or {}
+        for k, t in enumerate(tr):
+            if 'panic' in t:
+                v.append({'class': 'panic-in-long-stream', 'what': t['panic']})
+                break
+            wf_dump(t, 'new' if k == 0 else 'long-stream', c['dim'], node_size, v, monitors=(k == 0))
+        last = tr[-1] if tr and 'panic' not in tr[-1] else {}
+        if bb.get('nonfinite_e') or last.get('nonfinite_e'):
+            v.append({'class': FINDING_ERR, 'what': 'node.error became non-finite at store_batch call %s of a stream without smoothing '
+                                                    '(exploration-level monitor on the implementation)' % bb.get('first_nonfinite_op')})
+        if bb.get('nonfinite_w') or last.get('nonfinite_w') or last.get('nonfinite_m'):
+            v.append({'class': 'nonfinite-weight-or-measure-in-long-stream', 'what': 'non-finite weight / mse / unified distance'})
+        return v
     for k, t in enumerate(tr):
         name = 'new' if k == 0 else ops[k]['op']
         if 'panic' in t:
@@ -352,10 +393,6 @@ def oracle(c, impl):
             before = tr[k - 1]
             if t['size'] > before['size']:
                 v.append({'class': 'compact-grew-map', 'what': 'compaction increased the number of nodes %d -> %d' % (before['size'], t['size'])})
-    bb = impl.get('brief_bad') or {}
-    for key in ('nonfinite_w', 'nonfinite_e'):
-        if bb.get(key):
-            v.append({'class': key.replace('_', '-') + '-in-long-stream', 'what': key})
     return v
 
 
@@ -366,6 +403,8 @@ def nontrivial_key(c, impl):
     if c['kind'] == 'pop':
         return ('pop', c['seed']) if any(t.get('phase') == 1 for t in tr) else None
     sizes = [t['size'] for t in tr if 'size' in t]
+    if c.get('brief'):
+        return ('long', c['seed']) if (impl.get('brief_bad') or {}).get('max_err_exp', 0) > 64 else None
     if len(set(sizes)) > 1:
         return ('net', c['seed'], tuple(sizes))
     return None
@@ -376,6 +415,9 @@ def classify(c, impl):
     if 'panic' in impl:
         return labs + ['panic']
     tr = impl.get('trace') or []
+    if c.get('brief'):
+        e = (impl.get('brief_bad') or {}).get('max_err_exp', 0)
+        return labs + ['long-stream', 'long-stream-max-error=' + ('inf' if e >= 5000 else '2^%d+' % (e // 256 * 256))]
     if c['kind'] == 'net':
         labs.append('node_size=%d' % c['cfg']['node_size'])
         if impl.get('created') != 0:
